@@ -114,7 +114,7 @@ class Monitor:
         if op in ("dict", "master"):
             self.reset_state(op == "master")
             return
-        if op in ("add", "adds") and len(t) == 2 and len(o) >= 3:
+        if op in ("add", "adds", "addp") and len(t) == 2 and len(o) >= 3:
             h, ident, cnt = t[1], int(o[1]), int(o[2])
             if h in self.id_of:
                 if ident != self.id_of[h]:
@@ -185,6 +185,37 @@ def phi(lines, outs, predef):
 class Prop:
     def __init__(self, predef):
         self.predef = predef
+
+    def continuations(self, lines, rng):
+        """suffixes that turn a difference of table shape into a failing clause of C17 (if there is one):
+        look every interned text up again by text and by id, intern it again, grow the table across the
+        next thresholds with fresh texts (re-checking the old ones after every growth), pre-size by small
+        and large amounts"""
+        texts = []
+        for l in lines:
+            t = l.split()
+            if len(t) == 2 and t[0] in ("add", "adds", "addp") and t[1] not in texts:
+                texts.append(t[1])
+        def recheck(ts):
+            return ["get " + x for x in ts] + ["add " + x for x in ts] + ["all"]
+        fresh = ["66%04x" % i for i in range(400)]
+        yield recheck(texts)
+        for k in (1, 2, 3, 5, 8, 13, 21, 40, 80, 160):
+            yield ["add " + x for x in fresh[:k]] + recheck(texts + fresh[:k])
+        for k in (6, 20, 65, 150):
+            for m in (1, 3, 10, 40):
+                yield ["add " + x for x in fresh[:k]] + ["more %d" % m] + recheck(texts + fresh[:k]) + \
+                      ["add " + x for x in fresh[k:k + 5]] + recheck(texts + fresh[:k + 5])
+        for _ in range(40):
+            k = rng.randint(1, 200)
+            seq = []
+            for x in fresh[:k]:
+                seq.append("add " + x)
+                if rng.random() < 0.1:
+                    seq.append("more %d" % rng.choice([1, 2, 5, 30]))
+                if rng.random() < 0.2:
+                    seq.append("get " + rng.choice(texts + fresh[:k]))
+            yield seq + recheck(texts + fresh[:k])
 
     def classify(self, lines, impl, crash, model):
         if crash:
@@ -324,7 +355,8 @@ def gen_case(rng, n, master=None, pool_size=40):
                                      "get 61 62", "adds 0061", "reset now"]))
         elif r < 0.45:
             t = rng.choice(pool)
-            lines.append(("add " if rng.random() < 0.6 else "adds ") + t)
+            r = rng.random()
+            lines.append(("add " if r < 0.5 else "adds " if r < 0.8 else "addp ") + t)
             added.append(t)
             size_hint += 1
         elif r < 0.60:
@@ -363,7 +395,7 @@ def gen_growth(rng, n, master, probe=0.05, presize=True):
     for i in range(n):
         t = hx(("%s_%d" % (stem, i)).encode()) if rng.random() < 0.9 else hx(bytes([rng.randint(1, 255) for _ in range(rng.randint(1, 9))]) + ("%d" % i).encode())
         texts.append(t)
-        lines.append(("add " if i % 3 else "adds ") + t)
+        lines.append(("add " if i % 3 else "adds " if i % 2 else "addp ") + t)
         if rng.random() < probe:
             k = rng.randint(0, i)
             c = rng.random()
@@ -474,7 +506,7 @@ def check(ctx):
     ctx.samples = [gen_case(ctx.rng("sample"), 10)[:14]]
     cov = {
         "evaluations": d.cases, "distinct_nontrivial": len(d.distinct),
-        "rule": "histories of add/adds/get/str/more/reset/predef/all/dump over pools of texts (empty, case variants, common prefixes, long, binary incl. bytes >= 128, 8-16 texts with identical hash) for stand-alone dictionaries and script masters, 3% illegal lines; every history of the stated length over 9 operations on 3 texts (two colliding); growth histories interning up to the stated number of fresh texts with interleaved lookups; non-trivial = at least one accepted operation with an observation; distinct by SHA-1 of the op lines",
+        "rule": "histories of add/adds/addp (character array, dynamic string, (pointer,length) view into a longer buffer)/get/str/more/reset/predef/all/dump over pools of texts (empty, case variants, common prefixes, long, binary incl. bytes >= 128, 8-16 texts with identical hash) for stand-alone dictionaries and script masters, 3% illegal lines; every history of the stated length over 9 operations on 3 texts (two colliding); growth histories interning up to the stated number of fresh texts with interleaved lookups; non-trivial = at least one accepted operation with an observation; distinct by SHA-1 of the op lines",
         "op_lines": d.lines, "op_histogram": d.hist, "model_answer_kinds": d.outkinds,
         "max_entries": max(sizes), "table_lengths_crossed": crossed,
         "exhaustive": False,
